@@ -367,9 +367,26 @@ pub fn request_json(id: u64, h: &HtlcSpec, invs: &[InvSpec], cache: &mut HashMap
         onion["total_msat"] = json!(h.total);
         onion["payment_secret"] = json!("07".repeat(32));
     }
-    let hash_hex = match h.hash.strip_prefix("raw:") {
-        Some(x) => x.to_string(),
-        None => hex::encode(hash_of(hash_index(&h.hash)).to_byte_array()),
+    let hash_hex = if let Some(x) = h.hash.strip_prefix("raw:") {
+        x.to_string()
+    } else if let Some(x) = h.hash.strip_prefix("near:") {
+        // a hash that differs from a catalogue hash only a little: "near:<name>:<variant>"
+        let mut it = x.split(':');
+        let name = it.next().unwrap_or("h1");
+        let v: u32 = it.next().and_then(|v| v.parse().ok()).unwrap_or(1);
+        let mut b = hash_of(hash_index(name)).to_byte_array();
+        match v {
+            1 => { b[3] ^= 0x5a; b[17] ^= 0x5a; }           // two bytes off by the same delta
+            2 => { b[0] ^= 0x01; }                            // one bit, first byte
+            3 => { b[31] ^= 0x80; }                           // one bit, last byte
+            4 => { b.swap(0, 31); if b[0] == b[31] { b[0] ^= 1; } }   // same bytes, other order
+            5 => { for k in 16..32 { b[k] ^= 0xff; } }        // first half equal
+            6 => { for k in 0..16 { b[k] ^= 0xff; } }         // second half equal
+            _ => { b[7] = b[7].wrapping_add(1); b[8] = b[8].wrapping_sub(1); }   // byte sum unchanged
+        }
+        hex::encode(b)
+    } else {
+        hex::encode(hash_of(hash_index(&h.hash)).to_byte_array())
     };
     json!({
         "onion": onion,
